@@ -219,6 +219,13 @@ def alphabet(model, seed: int):
         for fd in finders:
             calls.append({"k": "find", "finder": fd, "s": q, "consume": None})
         calls.append({"k": "find", "finder": rnd.choice(finders), "s": q, "consume": 1})
+        # FindInList reports in list order: the order, and the first hit, are part of the answer; 'list@' is one
+        # long-lived instance per process (a '>' search, a partially consumed generator ... must leave it as it was)
+        calls.append({"k": "find", "finder": "list", "s": q, "consume": None, "ordered": True})
+        calls.append({"k": "find", "finder": "list@", "s": q, "consume": None, "ordered": True})
+        calls.append({"k": "find", "finder": "list@", "s": q, "consume": 1})
+        calls.append({"k": "find_one", "finder": "list@", "s": q})
+        calls.append({"k": "find_one", "finder": "all@", "s": q})
     for t, f, s in picked[:4]:
         calls.append({"k": "exists", "uri": t + ":" + s})
     for e in new_entities(model):
@@ -283,6 +290,23 @@ def families(model, seed: int):
             calls.append({"k": "unfold", "s": x, "u": False, "e": True, "style": "kw"})
             calls.append({"k": "find", "finder": "all", "s": x, "consume": None})
         calls.append({"k": "find", "finder": "paths:" + model.default_config, "s": or1, "consume": 1})
+        fams.append(calls)
+    # one family per long-lived Finder instance: every kind of search ('>' sorted, star, plain, partially consumed, find_one)
+    # asked of the SAME instance, in both orders; order of the results included for the list Finder
+    for t, f, s in picked[:3]:
+        segs = s.split("/")
+        n = len(segs)
+        i = rnd.randrange(1, n)
+        gt = "/".join(segs[:i] + [">"] + segs[i + 1:])
+        gt_star = "/".join(segs[:max(1, i - 1)] + ["*"] * (1 if i > 1 else 0) + [">"] + ["*"] * (n - i - 1))
+        star = "/".join(segs[:i] + ["*"] * (n - i))
+        wide = "/".join(segs[:1] + ["*"] * (n - 1))
+        calls = []
+        for fd in ("list@", "all@", "paths:" + model.default_config + "@"):
+            for x in (gt, gt_star, star, wide, s):
+                calls.append({"k": "find", "finder": fd, "s": x, "consume": None, "ordered": fd == "list@"})
+                calls.append({"k": "find_one", "finder": fd, "s": x})
+            calls.append({"k": "find", "finder": fd, "s": wide, "consume": 1})
         fams.append(calls)
     return fams
 
